@@ -50,8 +50,34 @@ def for_model(code, env):
     return walk(code)
 
 
+_TS_CACHE = {}
+
+
+def read_timestamp(text):
+    """what `TimestampType.from_micheline_value` makes of a string node whose bytes are `text`: `unforge_micheline` decodes it
+    (UTF-8), `optimize_timestamp` reads it; None if either raises.  The instance of the model's parameter `Env.readTimestamp`."""
+    if text not in _TS_CACHE:
+        from pytezos.michelson.forge import optimize_timestamp
+        try:
+            _TS_CACHE[text] = int(optimize_timestamp(text.decode()))
+        except Exception:      # noqa: whatever it raises, UNPACK swallows it
+            _TS_CACHE[text] = None
+    return _TS_CACHE[text]
+
+
+def timestamp_words(code):
+    """12th environment word: `hex(text):seconds|x,…` for the texts of the program an UNPACK could read as a timestamp"""
+    if '"UNPACK"' not in json.dumps(code):
+        return '-'
+    rows = []
+    for text in gen_interp.texts_of(code):
+        v = read_timestamp(text)
+        rows.append(f'{text.hex()}:{"x" if v is None else v}')
+    return ','.join(rows) or '-'
+
+
 def prog_line(code, env):
-    return f'{FUEL} | {env_words(env)} | {mich.to_line(for_model(code, env))}'
+    return f'{FUEL} | {env_words(env)} {timestamp_words(code)} | {mich.to_line(for_model(code, env))}'
 
 
 def parse_model(out):
